@@ -175,9 +175,19 @@ structure RunEnv where
 def argName : Arg → String
   | .mk n _ => n
 
+def argPlain : Arg → Bool
+  | .mk _ none => true
+  | _ => false
+
+/-- plain positional parameters without annotations or defaults (an annotation is evaluated when the `def` runs) -/
 def paramNames : Arguments → Option (List String)
-  | .mk po args none [] [] none [] => some ((po ++ args).map argName)
+  | .mk po args none [] [] none [] => if (po ++ args).all argPlain then some ((po ++ args).map argName) else none
   | _ => none
+
+/-- a `def` the static table holds: executing the statement does nothing else -/
+def isPlainDef : Stmt → Bool
+  | .functionDef false _ args _ [] none [] => (paramNames args).isSome
+  | _ => false
 
 def globalsOf : Stmt → List String
   | .global ns => ns
@@ -323,7 +333,9 @@ def raisedBy (n : String) : String := if excNeedsArgs.contains n then "TypeError
 def simpleExec (s : St) : Stmt → Res Flow
   | .pass => .ok (.normal s)
   | .global _ => .ok (.normal s)
-  | .functionDef .. => .ok (.normal s)          -- definitions are in the static table
+  | .functionDef a n args body decs ret tps =>
+    -- definitions are in the static table; a decorated / annotated / async `def` is outside the core
+    if isPlainDef (.functionDef a n args body decs ret tps) then .ok (.normal s) else .stuck
   | .break_ => .ok (.broke s)
   | .continue_ => .ok (.continued s)
   | .return_ none => .ok (.returned .none s)
